@@ -151,6 +151,27 @@ struct Lin {
                 reloaded = std::make_unique<field_t>(static_cast<std::istream &>(ss));
                 vh::stat("fields_interpolated_after_dump_and_reload");
             }
+            // ... and every fourth one after being copy-assigned over a field of the same type with other extents
+            // (larger for even, smaller for odd field numbers) holding other values
+            if (fi % 4 == 1) {
+                vh::set_case("%s field#%u extents=%s copy-assigned over another field", nm.c_str(), fi, vh::jarr(ext, N).c_str());
+                covfie::utility::nd_size<N> ext2;
+                uint64_t b2min[N], b2max[N];
+                for (std::size_t k = 0; k < N; ++k) {
+                    ext2[k] = (fi & 2) ? ext[k] + 1 + k % 2 : (ext[k] > 2 ? ext[k] - 1 : 2);
+                    b2min[k] = 0;
+                    b2max[k] = ext2[k] - 1;
+                }
+                reloaded = std::make_unique<field_t>(make(ext2, b2min, b2max));
+                {
+                    typename order_t::non_owning_data_t raw2(order_of(*reloaded));
+                    icoord_t z;
+                    for (std::size_t k = 0; k < N; ++k) z[k] = 0;
+                    for (std::size_t j = 0; j < M; ++j) raw2.at(z)[j] = (S)-12345;
+                }
+                *reloaded = f;
+                vh::stat("fields_interpolated_after_copy_assignment_over_another");
+            }
             typename field_t::view_t view(reloaded ? *reloaded : f);
             for (unsigned q = 0; q < ncoords; ++q) {
                 R x[N];
